@@ -274,14 +274,30 @@ Proof. intros H. induction H; cbn [length]; congruence. Qed.
 (* ================================================================ the element node *)
 Definition attrs_opt (l : list aattr) : option (list aattr) := match l with [] => None | _ => Some l end.
 
-Definition elem_node (e : selem) : anode := ANode (Some (se_name e)) None None (attrs_opt (written_mentions e)) [] false.
+(* value of the element: its text with escapes resolved (nothing for `{}`) *)
+Definition elem_text_value (e : selem) : option (list vtok) :=
+  match se_text e with None => None | Some T => text_value T end.
+
+Definition elem_node (e : selem) : anode :=
+  ANode (Some (se_name e)) (elem_text_value e) None (attrs_opt (written_mentions e)) [] false.
 
 Lemma conv_elem env pos e st :
   selem_ok e -> conv_stmt env (leaf_node (elem_leaf pos e)) st = Ok ([elem_node e], st).
 Proof.
-  intros [[Hne _] Hp]. unfold leaf_node, elem_leaf. cbn [lf_name lf_attrs lf_value lf_repeat lf_self].
+  intros [[Hne _] [Hp _]]. unfold leaf_node, elem_leaf. cbn [lf_name lf_attrs lf_value lf_repeat lf_self].
   cbn [conv_stmt nonempty].
   rewrite (stringify_name_lit env (word_tok pos (se_name e)) (se_name e) st eq_refl). cbn [bind].
+  (* the value *)
+  assert (Hval : (match nonempty (elem_value pos e) with
+                  | Some toks => let* (v, s') := stringify_value env toks st in Ok (Some v, s')
+                  | None => Ok (None, st)
+                  end) = Ok (elem_text_value e, st)).
+  { unfold elem_value, elem_text_value. destruct (se_text e) as [T|]; [|reflexivity].
+    set (p := pos + length (se_name e) + length (parts_text (se_parts e)) + 1).
+    destruct T as [|t0 T']; [reflexivity|].
+    destruct (text_tokens_nonempty p (t0 :: T') ltac:(discriminate)) as [t [l E]].
+    rewrite E. cbn [nonempty]. rewrite <- E. rewrite stringify_text. reflexivity. }
+  rewrite Hval. cbn [bind].
   pose proof (pointwise_parts env (se_parts e) (pos + length (se_name e)) Hp) as Hpw.
   pose proof (pointwise_quiet env _ _ Hpw st) as Hq.
   unfold elem_node, written_mentions, elem_tattrs.
@@ -336,16 +352,16 @@ Theorem attr_value_literal jsx env mr (name n : str) (v : sval) :
 Proof.
   intros Hname Hj [Hne [Hsafe [Hdot Hexcl]]] Hv Htext.
   pose (a := mkSAttr false n false v).
-  pose (e := mkSElem name [PSet [a]]).
+  pose (e := mkSElem name [PSet [a]] None).
   assert (Han : aname_text a = n) by (unfold aname_text, a; cbn; apply app_nil_r).
   assert (Hok : selem_ok e).
-  { split; [exact Hname|]. constructor; [|constructor]. cbn [spart_ok]. constructor; [|constructor].
+  { split; [exact Hname|]. split; [|exact I]. constructor; [|constructor]. cbn [spart_ok]. constructor; [|constructor].
     unfold sattr_ok. rewrite Han. cbn [sa_name sa_boolean sa_implied sa_value a]. repeat split; auto. }
   pose proof (element_attributes_text jsx env mr e Hok Hj Htext) as H.
-  unfold elem_text, e in H. cbn [se_name se_parts parts_text part_text attrs_text] in H.
+  unfold elem_text, e in H. cbn [se_name se_parts se_text tail_text parts_text part_text attrs_text] in H.
   unfold attr_text in H. rewrite Han in H. cbn [sa_value a] in H.
-  rewrite app_nil_r in H. rewrite <- app_assoc in H. cbn [app] in H.
-  rewrite H. unfold elem_node, written_mentions. cbn [se_name se_parts flat_map part_mentions map app attrs_opt].
+  rewrite !app_nil_r in H. rewrite <- app_assoc in H. cbn [app] in H.
+  rewrite H. unfold elem_node, written_mentions, elem_text_value. cbn [se_text]. cbn [se_name se_parts flat_map part_mentions map app attrs_opt].
   unfold attr_mention. cbn [sa_value sa_name sa_boolean sa_implied a].
   destruct v; reflexivity.
 Qed.
